@@ -20,7 +20,9 @@ CHECKS = {
             "optional==required)",
             "Every document of <= 3 nodes x every path of <= 2 vocabulary "
             "segments is compared with a reference evaluator written from "
-            "the README (complete), larger scopes by seed-offset stride, "
+            "the README (complete; repeated with the keys moved onto "
+            "negative/zero/wide integers and number-like or spaced text), "
+            "larger scopes by seed-offset stride, "
             "random documents with anchors and derived paths beyond; same "
             "positions, same order, same multiplicity. Documentation-silent "
             "corners are Unspecified and counted, not decided.",
@@ -32,7 +34,8 @@ CHECKS = {
             "against invariants over every result (coordinates, ancestry "
             "chain, path round-trip) - a round-trip / invariant oracle",
             "Every non-virtual result of ~2.4e6 queries (documents <= 3 "
-            "nodes whose keys carry each of the 13 escapable characters x "
+            "nodes whose keys carry each of the 13 escapable characters or "
+            "are negative/zero/wide integers x "
             "paths <= 2 segments incl. keyword searches; random anchored "
             "documents beyond) must satisfy parent[parentref] is node, a "
             "walkable ancestry chain from the root, and a reported path "
@@ -43,7 +46,8 @@ CHECKS = {
             "exhaustive small-scope enumeration of single edits + Hypothesis "
             "rule-based state machine over edit histories, compared step by "
             "step with a plain-data model; dump/reload round-trip",
-            "Every scalar leaf of every document <= 3 nodes x 6 new values, "
+            "Every scalar leaf of every document <= 3 nodes x 6 new values "
+            "(again with integer/number-like keys), "
             "vocabulary paths, an enumerated family of anchored/aliased "
             "documents, and ~1000 random histories of up to 12 set/create/"
             "delete steps on one living document; the model is recomputed "
@@ -55,7 +59,8 @@ CHECKS = {
             "exhaustive small-scope enumeration + Hypothesis generation, "
             "differential against a plain-data deletion model",
             "Every document <= 3 nodes x every vocabulary path <= 2 segments "
-            "that matches something is deleted through both public entry "
+            "that matches something (again with integer/number-like keys, "
+            "and with 1 next to '1') is deleted through both public entry "
             "points on fresh copies and compared with the model (matched set "
             "removed, everything else and its order kept); root deletion "
             "must be refused with the document unchanged.",
@@ -105,7 +110,8 @@ CHECKS = {
             "All pairs of left/right documents defining and aliasing scalar "
             "anchors from the pool {x, y, x_1} (aliases under keys and in "
             "sequences, optional second anchors so rename targets collide, "
-            "falsy values) x stop/left/right/rename: acceptance, the value "
+            "falsy values, either side optionally wrapped whole in an "
+            "anchored and aliased hash) x stop/left/right/rename: acceptance, the value "
             "every alias position reads, rename consistency/uniqueness, and "
             "a strict dump/reload of the result.",
             TRUST, "6/C10"),
@@ -115,7 +121,10 @@ CHECKS = {
             "pattern for everything outside the targets",
             "Every existing-node path, several multi-match paths, creatable "
             "missing tails and unmatchable searches on ~1100 left documents "
-            "x 8 right documents of every root kind x rotating policies: "
+            "x 8 right documents of every root kind x rotating policies, "
+            "per-path rules naming the merge point or a path beneath it, "
+            "and targets that are an anchored container or its alias under "
+            "all 180 policies: "
             "each target must be the policy merge of its old content, the "
             "complement must be untouched, unmatched paths must raise "
             "MergeException.",
@@ -125,7 +134,8 @@ CHECKS = {
             "complete finite grid + Hypothesis generation against a "
             "reference comparison table; metamorphic inversion-complement "
             "relation on enumerated documents",
-            "The full operator x haystack x needle grid (9 x 41 x 40) is "
+            "The full operator x haystack x needle grid (9 x 52 x 43, incl. "
+            "integers past 2**53 and 10**400) is "
             "compared with a reference table written from the statement; "
             "cells the documentation leaves open are Unspecified and only "
             "checked for not raising. The inverted search must be the exact "
@@ -146,7 +156,10 @@ CHECKS = {
             "against an exception-type oracle with signature bucketing",
             "Every document of <= 3 nodes (4 thorough) x every path of <= 2 "
             "segments from a 61-item vocabulary built to hit index, slice, "
-            "null, regex, literal, keyword and collector edge cases, through "
+            "null, regex, literal, keyword and collector edge cases, plus a "
+            "grammar grid (every keyword x 32 degenerate parameter texts, "
+            "attribute x operator x term/regex grids, 50 key names that are "
+            "literal syntax in Python/YAML) through "
             "required / exists / optional entry points; only "
             "YAMLPathException may escape. Root causes are bucketed by "
             "(type, frame, source line) so known findings do not hide new "
@@ -159,7 +172,10 @@ CHECKS = {
             "27 syntactically significant symbols is parsed under three "
             "separator settings and must end in segments or "
             "YAMLPathException; ~10^5 Hypothesis texts (arbitrary Unicode, "
-            "mutated valid paths) extend beyond the bound. Exhaustive within "
+            "mutated valid paths) and 41 templates x 51 payloads (format "
+            "braces, percent directives, non-ASCII digits, over-long "
+            "numbers, control characters in every syntactic position) "
+            "extend beyond the bound. Exhaustive within "
             "the bound, sampled beyond it; absence of violations beyond the "
             "explored scope is not established.",
             TRUST + "Non-termination is detected by an alarm, not proven "
@@ -170,11 +186,12 @@ CHECKS["C18"] = (True, "exploration",
     "enumeration of document-stream pairs x modes x policies; differential "
     "against a fresh pairwise fold (no shared objects) with a count/order "
     "oracle and a per-case termination watchdog",
-    "Left/right streams of 1-3 documents from a 13-document pool (incl. an "
-    "empty document) under condense_all / merge_across / matrix_merge and 5 "
+    "Left/right streams of 1-3 documents from a 15-document pool (incl. an "
+    "empty document and overlapping arrays) under condense_all / merge_across / matrix_merge and 5 "
     "policy mixes are pushed through get_doc_mergers()+merge_docs(); the "
     "number, order and content of outputs must equal a reference that "
-    "re-loads every document from text for every pairwise step; failed "
+    "re-loads every document from text and builds a new Merger for every "
+    "pairwise step; failed "
     "steps must surface as a non-zero state; each case must terminate.",
     TRUST + "Pairwise merge correctness is C05's.", "6/C18")
 
@@ -193,9 +210,11 @@ CHECKS["C07"] = (True, "exploration",
     "enumeration of documents x expressions x option sets against an "
     "independent reference search; re-query round-trip of every printed path",
     "Every set-free document <= 3 nodes (some with escapable keys) and a "
-    "family with scalar anchors/aliases x 9 operators x inversion x 6 terms "
-    "x {values, keys+values, keys only} x alias inclusion x anchor-name "
-    "search x expansion x both notations (~7e5 searches): each printed path "
+    "family with scalar anchors/aliases and anchored keys reused as aliased "
+    "keys x 9 operators x inversion x 6 terms "
+    "x {values, keys+values, keys only} x value-alias and key-alias "
+    "inclusion x anchor-name "
+    "search x expansion x both notations (~9e5 searches): each printed path "
     "must resolve, in its notation, to the one matched node; the reported "
     "set must equal the reference search's (sound and complete, aliases "
     "counted only on request); expansion must give the leaf descendants.",
@@ -208,7 +227,9 @@ CHECKS["C16"] = (True, "exploration",
     "exit-status rules",
     "~1.5e5 generated invocations of yaml-get / yaml-set / yaml-merge / "
     "yaml-diff / yaml-validate / yaml-paths with file, '-' and implicit "
-    "stdin delivery, YAML and JSON output and both notations; stdout, exit "
+    "stdin delivery, YAML and JSON output, both notations, multi-document "
+    "streams with -L/-R document selection (yaml-diff) and per-document "
+    "results (yaml-paths); stdout, exit "
     "status and the written file must agree with the library-level result "
     "the other properties decide, file and stdin delivery must agree, and "
     "no invocation may end in an uncaught exception.",
@@ -222,8 +243,10 @@ CHECKS["C17"] = (True, "fault_enumeration",
     "Every pre-write failure cause x document x {stale .bak, --backup} must "
     "exit non-zero with the directory byte-identical; for every successful "
     "yaml-set --backup / yaml-merge --overwrite --backup / eyaml-rotate-keys "
-    "--backup base case each of the save's I/O calls (open for write, every "
-    "write(), copy2, remove, copyfileobj) is failed in turn and the target "
+    "--backup base case (regular and symlinked targets) each of the save's "
+    "I/O calls (open for write, every write(), copy2, remove, copyfileobj; "
+    "each dump write() also as an AssertionError from the serializer) is "
+    "failed in turn and the target "
     "or its .bak must still hold the complete pre-image; a completed run "
     "must leave .bak identical to the pre-image.",
     TRUST + "Faults are injected at Python-level I/O call boundaries, not by "
@@ -235,7 +258,8 @@ CHECKS["C19"] = (True, "exploration",
     "frame and invocation-count invariants",
     "Seeded Hypothesis documents mixing plaintext with encrypted scalars at "
     "arbitrary positions (hash values, list elements, anchored + aliased, "
-    "plain / quoted / folded / literal styles, awkward plaintexts), alone "
+    "plain / quoted / folded / literal styles, awkward plaintexts incl. "
+    "CR LF line ends), alone "
     "or two files per run, are rotated through the real eyaml-rotate-keys "
     "entry point against a stand-in eyaml: every secret must decrypt under "
     "the new keys to its old plaintext and no longer under the old keys, "
